@@ -231,36 +231,48 @@ def run_check(prop, args, wdir):
         return 2
     selftest_died = st["mismatches"] < 0  # a crash: the exploration below will find and classify it
 
-    procs = []
-    for w in range(workers):
-        out = os.path.join(wdir, "w%d.json" % w)
-        prog = os.path.join(wdir, "w%d.progress" % w)
-        errp = os.path.join(wdir, "w%d.err" % w)
-        p = run_bin(binp, {"VERIF_MODE": "explore", "VERIF_PROP": prop, "VERIF_SEED": seed, "VERIF_FROM": w,
-                           "VERIF_STRIDE": workers, "VERIF_DEADLINE_S": budget, "VERIF_OUT": out,
-                           "VERIF_PROGRESS": prog}, budget + 120, errp)
-        procs.append((w, p, out, prog, errp))
     infra = []
     crashes = []
     sums = []
+    t_explore = time.time()
+    active = {}
+    def start_worker(w, first, gen, remaining):
+        out = os.path.join(wdir, "w%d-%d.json" % (w, gen))
+        prog = os.path.join(wdir, "w%d-%d.progress" % (w, gen))
+        errp = os.path.join(wdir, "w%d-%d.err" % (w, gen))
+        p = run_bin(binp, {"VERIF_MODE": "explore", "VERIF_PROP": prop, "VERIF_SEED": seed, "VERIF_FROM": first,
+                           "VERIF_STRIDE": workers, "VERIF_DEADLINE_S": remaining, "VERIF_OUT": out,
+                           "VERIF_PROGRESS": prog}, remaining + 120, errp)
+        active[w] = (p, out, prog, errp, gen)
+    for w in range(workers):
+        start_worker(w, w, 0, budget)
     hard_deadline = time.time() + budget + 150
-    for w, p, out, prog, errp in procs:
-        try:
-            p.wait(max(1, hard_deadline - time.time()))
-        except subprocess.TimeoutExpired:
-            p.kill()
-            pr = load_json(prog)
-            infra.append("worker %d exceeded the wall-clock watchdog at %s" % (w, pr))
-            continue
-        s = load_json(out)
-        if s is None:
+    while active:
+        time.sleep(0.2)
+        for w in list(active):
+            p, out, prog, errp, gen = active[w]
+            rc = p.poll()
+            if rc is None:
+                if time.time() > hard_deadline:
+                    p.kill()
+                    infra.append("worker %d exceeded the wall-clock watchdog at %s" % (w, load_json(prog)))
+                    del active[w]
+                continue
+            del active[w]
+            s = load_json(out)
+            if s is not None and not s.get("partial"):
+                sums.append(s)
+                continue
             pr = load_json(prog)
             if pr is None:
                 infra.append("worker %d died before its first run: %s" % (w, open(errp).read()[-2000:]))
-            else:
-                crashes.append((pr["run"], errp))
-        else:
-            sums.append(s)
+                continue
+            if s is not None:
+                sums.append(s)  # coverage up to the last periodic snapshot
+            crashes.append((pr["run"], errp))
+            remaining = budget - (time.time() - t_explore)
+            if remaining > 2 and gen < 6:
+                start_worker(w, pr["run"] + workers, gen + 1, remaining)
 
     # merge coverage
     runs = sum(s["runs"] for s in sums)
@@ -283,7 +295,7 @@ def run_check(prop, args, wdir):
         if len(samples) < 3:
             samples.extend((s.get("samples") or [])[:1])
         failures.extend(s.get("failures") or [])
-    explore_wall = max([s.get("wall_s", 0) for s in sums] or [0])
+    explore_wall = time.time() - t_explore
 
     violations = []
     known_hit = []
